@@ -176,8 +176,35 @@ func genCase(r *gen.Rand, w *gen.Writer, tier string) (cfgIn, []opIn, map[int][]
 				ops = append(ops, o)
 			}
 			var s []int
-			for i := r.Intn(4*m + 1); i > 0; i-- {
-				s = append(s, r.Intn(m))
+			if r.Chance(1, 2) {
+				// structured: thread a is parked after k releases (1: KeyGenerator, 2: end of the entry
+				// Get, 3: before the body Get of a hit / origin handler), then the others run as far as
+				// they get (to completion, or until they block on the mutex a holds), then a goes on
+				a := r.Intn(m)
+				for k := 1 + r.Intn(3); k > 0; k-- {
+					s = append(s, a)
+				}
+				order := make([]int, m)
+				for i := range order {
+					order[i] = i
+				}
+				for i := m - 1; i > 0; i-- {
+					j := r.Intn(i + 1)
+					order[i], order[j] = order[j], order[i]
+				}
+				for _, t := range order {
+					if t == a {
+						continue
+					}
+					for k := 4; k > 0; k-- {
+						s = append(s, t)
+					}
+				}
+				w.Count("sched-structured")
+			} else {
+				for i := r.Intn(4*m + 1); i > 0; i-- {
+					s = append(s, r.Intn(m))
+				}
 			}
 			scheds[grp] = s
 			w.Count(fmt.Sprintf("group-size-%d", m))
